@@ -261,8 +261,8 @@ PROPS["C06"] = {
     "module": "MsiProofs.Props.C06b",
     "gen": ["column", "limits", "category"],
     "profiles": ["dev"],
-    "theorems": ["MsiProofs.C06.bits_disjoint", "MsiProofs.C06.typeword_roundtrip_all", "MsiProofs.C06.bitfield_depends", "MsiProofs.C06.typeword_roundtrip", "MsiProofs.C06.unstorable_refused", "MsiProofs.C06.isStorable_iff", "MsiProofs.C06.column_roundtrip", "MsiProofs.C06.openColumns_spec", "MsiProofs.C06.category_roundtrip", "MsiProofs.C06.splitOn_intercalate"],
-    "level_text": "Lean: CATALOG ROUND TRIP — the _Validation row and the _Columns type word that create_table writes for a storable column decode, through the builder open uses, to exactly that column (name, type and width, nullable / primary-key / localizable, value range, foreign key, category [all 26], enumeration [split undoes join when no value contains ;]) (column_roundtrip), and the loop of open rebuilds all columns of a table in order (openColumns_spec); Lean theorems: the type word round-trips (type, width, nullable, key, localizable) for every storable column — generic lemma + decide +kernel over all 3,096 type words, bit constants regenerated from column.rs; create_table refuses every column that is not storable (width > 255, empty or ';'-containing enumeration values) without changing anything. Range, category, enumeration and foreign key travel through _Validation: tied by correspondence over builder options and by the schema-equality oracle after reopen.",
+    "theorems": ["MsiProofs.C06.bits_disjoint", "MsiProofs.C06.typeword_roundtrip_all", "MsiProofs.C06.bitfield_depends", "MsiProofs.C06.typeword_roundtrip", "MsiProofs.C06.unstorable_refused", "MsiProofs.C06.isStorable_iff", "MsiProofs.C06.column_roundtrip", "MsiProofs.C06.openColumns_spec", "MsiProofs.C06.category_roundtrip", "MsiProofs.C06.splitOn_intercalate", "MsiProofs.C06.openTables_of_catalog", "MsiProofs.C06.decode_table", "MsiProofs.C06.nameSorted_unique"],
+    "level_text": "THE CATALOG PASS OF OPEN, DECODED (openTables_of_catalog): if the three catalog streams hold - in any row order - the _Tables, _Columns and _Validation rows create_table writes for a name-sorted list of tables (distinct names, storable columns with distinct names), then open returns exactly those table definitions (plus the two built-in catalog tables): every column with its name, type and width, flags, range, foreign key, category and enumeration. Lean: CATALOG ROUND TRIP — the _Validation row and the _Columns type word that create_table writes for a storable column decode, through the builder open uses, to exactly that column (name, type and width, nullable / primary-key / localizable, value range, foreign key, category [all 26], enumeration [split undoes join when no value contains ;]) (column_roundtrip), and the loop of open rebuilds all columns of a table in order (openColumns_spec); Lean theorems: the type word round-trips (type, width, nullable, key, localizable) for every storable column — generic lemma + decide +kernel over all 3,096 type words, bit constants regenerated from column.rs; create_table refuses every column that is not storable (width > 255, empty or ';'-containing enumeration values) without changing anything. Range, category, enumeration and foreign key travel through _Validation: tied by correspondence over builder options and by the schema-equality oracle after reopen.",
     "level_note": "Trusted: Lean kernel; the hand-written package model (MsiModel/Pkg.lean, PkgApi.lean, Pool, Table, PropSet, Summary), tied to the code by byte-exact correspondence: the same request histories run on the real crate and on the model's definitions, compared on every reply including full snapshots and the raw bytes of every saved stream; cfb is modelled as a finite map from names (compared by UTF-16 length and upper-cased text) to byte strings; the 24 table-backed code pages are modelled on ASCII text only (non-ASCII text is exercised under UTF-8; all pages are exercised by the oracle on the real code).",
     "technique": 'Lean 4 proof (exhaustive decide +kernel on regenerated constants, lifted) + schema round-trip oracle',
     "rule": 'seeded random sessions: package type, database code page, 1-3 tables with random schemas (types, widths, flags, ranges, categories, enumerations, composite/nullable keys), inserts (valid with controlled invalid mutations), updates (incl. key columns), deletes, selects, stream writes/removes (0..9000 bytes), summary setters/clearers, create/drop table, rejected calls, close/reopen in all three modes at random positions, snapshot after every step, raw bytes after flush. non-trivial = distinct successful mutating requests + decoded files',
